@@ -248,6 +248,13 @@ func (s *SCION) DecodeFromBytes(data []byte, df gopacket.DecodeFeedback) error {
 	if err != nil {
 		return err
 	}
+	// The path decoders accept trailing bytes. The header must be exactly as long as the common
+	// header, the address header and the path require; otherwise serializing the decoded header
+	// again would not reproduce it.
+	if s.Path.Len() != pathLen {
+		return serrors.New("header length inconsistent with path length",
+			"hdrBytes", hdrBytes, "pathLen", pathLen, "actual", s.Path.Len())
+	}
 	s.Contents = data[:hdrBytes]
 	s.Payload = data[hdrBytes:]
 
